@@ -148,7 +148,7 @@ func cmdFunc(args []string) int {
 				}
 				fmt.Printf("   %s %-8s %6dms %-7s %s\n", mark, o.Res.Status, o.Res.Ms, o.Res.Solver, o.Name)
 				if o.Res.Status != "unsat" {
-					fmt.Printf("        clause: %s\n", o.Clause)
+					fmt.Printf("        at %s  clause: %s\n", o.Where, o.Clause)
 				}
 				if *dump != "" && strings.Contains(o.Name, *dump) {
 					os.MkdirAll("/tmp/govc-dump", 0o755)
@@ -221,6 +221,7 @@ func cmdCheck(args []string) int {
 	tier := fs.String("tier", "quick", "quick|thorough")
 	repo := fs.String("repo", "/repo", "repository root")
 	register := fs.Bool("register", false, "record the generated obligation names as the registered set of this property")
+	outDir := fs.String("out", verifRoot, "directory receiving evidence/ and replays/ (default /verif; use a scratch directory when checking a scratch copy)")
 	fs.Parse(args)
 	if os.Getenv("VERIF_TIER") != "" && *tier == "" {
 		*tier = os.Getenv("VERIF_TIER")
@@ -230,9 +231,9 @@ func cmdCheck(args []string) int {
 		seed, _ = strconv.Atoi(s)
 	}
 	t0 := time.Now()
-	evPath := filepath.Join(verifRoot, "evidence", *prop+".json")
+	evPath := filepath.Join(*outDir, "evidence", *prop+".json")
 	os.MkdirAll(filepath.Dir(evPath), 0o755)
-	replayDir := filepath.Join(verifRoot, "replays", *prop)
+	replayDir := filepath.Join(*outDir, "replays", *prop)
 	os.RemoveAll(replayDir)
 	os.MkdirAll(replayDir, 0o755)
 
